@@ -53,7 +53,7 @@ def bind_roles(ctx):
     return tq, H, F, R, C
 
 
-def effects_of(tq, fname, H, F, R, summaries, depth=0):
+def effects_of(tq, fname, H, F, R, summaries, depth=0, unroll=1):
     """-> list of (dH, dR, dF, outcome, note) per path; raises on unknown membership"""
     f = tq.methods[fname]
     param_task = f.params[1] if len(f.params) > 1 else None
@@ -65,7 +65,7 @@ def effects_of(tq, fname, H, F, R, summaries, depth=0):
                 return True
         return False
     res = []
-    for ev, out in enumerate_paths(f.node, may_raise=may_raise, unroll=1):
+    for ev, out in enumerate_paths(f.node, may_raise=may_raise, unroll=unroll):
         dH = dR = dF = 0
         member = None   # knowledge about `task in F`
         notes = []
@@ -181,7 +181,7 @@ def rule_inv(ctx):
             mutators.append(name)
     n = 0
     for name in mutators:
-        effs = effects_of(tq, name, H, F, R, summaries)
+        effs = effects_of(tq, name, H, F, R, summaries, unroll=(3 if ctx.tier == 'thorough' else 1))
         summaries[name] = effs
         f = tq.methods[name]
         for a, b, c, outcome, ke, full_reset, bad, reset in effs:
